@@ -163,6 +163,9 @@ def tokens(r, role, chunks, p_write=0.25):
     transmit path is full from here on: a peer that does not read), `@Wa<k>` (next write call taken up to k
     bytes), `@R` (room again). For the client a leading write token takes effect before the request is sent."""
     toks = [hexs(c) for c in chunks]
+    if role == 'server' and r.random() < 0.2:
+        # a session with an authorization handler whose queries are observable (counting policy)
+        return ['@A'] + (toks if r.random() < 0.7 else tokens(r, 'server-noauth', chunks, p_write=1.0))
     if r.random() >= p_write:
         return toks
     kind = r.random()
